@@ -2255,4 +2255,35 @@ def gen_cases(tier, rng):
                 if every or rng.random() < 0.5:
                     it["as_tuple"] = True
             c["kind"] += "+tuple-attr"
+    # round 5: raw attribute dictionaries as callers have them -- attributes the configuration does NOT name (atom maps, hydrogen
+    # counts, aromaticity flags, neighbour lists, typesGH tuples; standard_order and bond type on the bonds) differ between the
+    # copies of one isomorphism class and must be ignored; the model selects the configured names itself (project13)
+    rng2 = _random.Random(rng.getrandbits(32))
+    for c in rest:
+        if not c["items"] or rng2.random() >= 0.35:
+            continue
+        used_n, used_e = set(DEF_CFG["names"]), {DEF_CFG["edge"]}
+        for cf in (c.get("cfg"), c.get("match")):
+            if cf:
+                used_n |= set(cf["names"])
+                used_e.add(cf["edge"])
+        for it in c["items"]:
+            g = it["g"] = _copy(it["g"])
+            for n_, a in g["nodes"]:
+                if rng2.random() < 0.6:
+                    a["atom_map"] = rng2.randint(0, 30)
+                if "hcount" not in used_n and rng2.random() < 0.5:
+                    a["hcount"] = rng2.choice([0, 1, 2, 3])
+                if rng2.random() < 0.3:
+                    a["aromatic"] = rng2.random() < 0.5
+                if rng2.random() < 0.3:
+                    a["neighbors"] = rng2.sample(["C", "O", "N", "H"], rng2.randint(0, 3))
+                if rng2.random() < 0.2:
+                    a["typesGH"] = [[a.get("element", "*"), False, 0, 0, []], [a.get("element", "*"), False, 1, 0, []]]
+            for u, v, a in g["edges"]:
+                if "standard_order" not in used_e and rng2.random() < 0.5:
+                    a["standard_order"] = rng2.choice([0, 1, -1, 0.5])
+                if rng2.random() < 0.3:
+                    a["bond_type"] = rng2.choice(["SINGLE", "DOUBLE"])
+        c["kind"] += "+raw-extra"
     return rest
